@@ -16,10 +16,15 @@ fn build(kinds: &[u8], good: &[u8], key: &[u8]) -> (Vec<u8>, Vec<(u16, Vec<u8>)>
         let off = match k {
             b'O' => {
                 // alternate a known kind (SOFTWARE), an unknown comprehension-optional and an unknown required type
-                match i % 3 {
+                // ... and two known kinds whose value is LONGER than their typed decoder consumes (the decoders accept trailing
+                // bytes inside a value; everything that is computed from offsets — the text a later MAC / CRC covers — must use
+                // the wire length, not the consumed size)
+                match i % 5 {
                     0 => r.push(0x8022, format!("sw{}", i).as_bytes()),
                     1 => r.push(0xC100 + i as u16, &[i as u8; 5]),
-                    _ => r.push(0x0100 + i as u16, &[i as u8, 1, 2]),
+                    2 => r.push(0x0100 + i as u16, &[i as u8, 1, 2]),
+                    3 => r.push(0x0001, &[0, 1, 0x12, 0x34, 192, 0, 2, i as u8, 9, 9, 9, 9]),
+                    _ => r.push(0x0024, &[0, 0, 1, i as u8, 7, 7, 7, 7]),
                 }
             }
             b'M' => r.push_mi(key),
@@ -85,6 +90,9 @@ fn matches_wire(a: &StunAttribute, wt: u16, wv: &[u8], unknown_data: bool) -> bo
         StunAttribute::Fingerprint(f) => {
             <[u8; 4]>::try_from(wv).map(|v| *f == Fingerprint::from(v)).unwrap_or(false)
         }
+        // the two over-long ordinary kinds: the decoded value is the leading part of the wire value
+        StunAttribute::MappedAddress(m) => wv.len() >= 8 && m.socket_address().port() == u16::from_be_bytes([wv[2], wv[3]]),
+        StunAttribute::Priority(p) => wv.len() >= 4 && p.as_u32() == u32::from_be_bytes([wv[0], wv[1], wv[2], wv[3]]),
         _ => false,
     }
 }
